@@ -315,8 +315,16 @@ def run(c):
         # a history of settings on one group: each one must be in force after its call, whatever was set before (default values included)
         for step in range(r.randint(1, 4)):
             cs = r.choice(["0", "1", "0-1", "1-2", "0,2"]) if (os.cpu_count() or 1) >= 4 else "0"
-            ops.append({"op": "setlimits", "h": i + 1, "prefix": "%s/g%d" % (root, i), "mem": mem, "pids": pids, "quota": quota, "period": period, "cpuset": cs})
-            lim.append((mem, pids, quota, period, cs))
+            op_ = {"op": "setlimits", "h": i + 1, "prefix": "%s/g%d" % (root, i), "mem": mem, "pids": pids, "quota": quota, "period": period, "cpuset": cs}
+            memx = mem
+            if r.random() < 0.35:
+                # boundary values: "no limit" requests at the top of the range, values that are not a multiple of the page size
+                # (the kernel keeps whole pages, rounding down, and caps at PAGE_COUNTER_MAX pages)
+                raw = r.choice([(1 << 64) - 1, (1 << 64) - 2, (1 << 64) - 4096, (1 << 63) + 5, 4097, 12345678, (1 << 40) + 1, mem + 1, mem + 4095])
+                op_["mem_s"] = str(raw)
+                memx = min(raw // 4096, ((1 << 63) - 1) // 4096) * 4096
+            ops.append(op_)
+            lim.append((memx, pids, quota, period, cs))
             mem = r.choice([4, 8, 16, 64, 1000, 1 << 18]) * 4096 * r.randint(1, 50)
             pids = r.randint(1, 5000)
             period = r.choice([100000, 100000, 50000, 1000000, 1000])
@@ -330,6 +338,38 @@ def run(c):
         else:
             ops.append({"op": "new", "h": 0, "name": "g%d" % i, "as": 500 + i})
         ops.append({"op": "readlimits", "prefix": "%s/g%d" % (root, i), "_after": ["OpenExisting", "New on the same prefix", "parent.New on the same name"][how], "_lim": len(lim) - 1})
+    # a handle is destroyed while groups that others made still exist below its group: nothing below may be touched
+    busy = tok + "_busy"
+    bops = [{"op": "pkgnew", "prefix": busy, "as": 0}, {"op": "new", "h": 0, "name": "kid", "as": 1},
+            {"op": "rawmkdir", "ctrl": "pids", "prefix": busy + "/foreign"},
+            {"op": "setlimits", "h": 1, "prefix": busy + "/kid", "mem": 64 << 20, "pids": 7, "quota": 50000, "period": 100000},
+            {"op": "destroy", "h": 0, "_expect_busy": True},
+            {"op": "exists", "prefix": busy + "/kid", "_must": "all"}, {"op": "exists", "prefix": busy + "/foreign", "_must": "pids"},
+            {"op": "readlimits", "prefix": busy + "/kid", "_pids": "7"},
+            {"op": "destroy", "h": 1}, {"op": "rawrmdir", "ctrl": "pids", "prefix": busy + "/foreign"}, {"op": "destroy", "h": 0},
+            {"op": "exists", "prefix": busy, "_must": "none"}]
+    bob = c.run_harness(exe, [{"id": 0, "ops": [{k: v for k, v in op.items() if not k.startswith("_")} for op in bops]}], env=env, timeout=300)[0]["obs"]
+    c.count("destroy-with-subgroups", nontrivial=True, klass="busy")
+    for op, o in zip(bops, bob):
+        bad = None
+        if op.get("_expect_busy") and not o.get("err"):
+            bad = "Destroy of a group that still has sub-groups reports success"
+        elif op.get("_must") == "all" and not all(o["exists"].values()):
+            bad = "a sub-group made through another handle was removed by the parent's Destroy"
+        elif op.get("_must") == "pids" and not o["exists"].get("pids"):
+            bad = "a group somebody else made below the handle's group was removed by Destroy"
+        elif op.get("_must") == "none" and any(o["exists"].values()):
+            bad = "the group is still there after its sub-groups and then the group itself were destroyed"
+        elif "_pids" in op and o.get("pids") != op["_pids"]:
+            bad = "limits of a sub-group were lost when the parent's handle was destroyed"
+        elif op["op"] in ("pkgnew", "new", "rawmkdir", "rawrmdir") and o.get("err"):
+            raise RuntimeError("busy scenario: %s failed: %s" % (op["op"], o["err"]))
+        elif op["op"] == "destroy" and not op.get("_expect_busy") and o.get("err"):
+            bad = "Destroy of an empty group made by this handle fails: " + str(o["err"])[:60]
+        if bad:
+            c.finding_or_violation({"kind": "cgroup", "what": bad}, {"history": [{k: v for k, v in x.items() if not k.startswith("_")} for x in bops], "observed": bob}, klass="busy")
+            break
+    cleanup(busy)
     burns = [(40, 8), (120, 24)] if c.quick() else [(40, 8), (120, 24), (300, 64), (20, 2), (200, 100)]
     for j, (ms, mb) in enumerate(burns):
         ops += [{"op": "new", "h": 0, "name": "b%d" % j, "as": 200 + j}, {"op": "burn", "h": 200 + j, "ms": ms, "mb": mb}]
